@@ -129,6 +129,7 @@ type simCtx struct {
 	phiBusy map[*ssa.Phi]bool
 	lookupBusy bool
 	litLoop *sliceRange // loop over a list literal that contains the subject: its element stands for the subject
+	boolParams map[*ssa.Parameter]bool // bool parameters whose value is a constant at the call site
 }
 
 // subject matching ---------------------------------------------------------
@@ -256,6 +257,27 @@ func (c *simCtx) regionOf(v ssa.Value) (float64, float64, bool) {
 	return 0, 0, false
 }
 
+// constUnder: the value is a constant, or a phi that selects one constant
+// under the facts the oracle already knows (e.g. a constant bool parameter).
+func (c *simCtx) constUnder(v ssa.Value) (float64, bool) {
+	v = resolve(v)
+	if k, ok := constFloat(v); ok {
+		return k, true
+	}
+	if p, ok := v.(*ssa.Phi); ok && len(c.boolParams) > 0 && !c.phiBusy[p] {
+		if c.phiBusy == nil {
+			c.phiBusy = map[*ssa.Phi]bool{}
+		}
+		c.phiBusy[p] = true
+		pv, uniq := phiValueUnder(c.f, p, c.oracle)
+		delete(c.phiBusy, p)
+		if uniq {
+			return constFloat(resolve(pv))
+		}
+	}
+	return 0, false
+}
+
 func decideCmp(op token.Token, lo, hi, c float64) (bool, bool) {
 	switch op {
 	case token.LSS:
@@ -350,6 +372,11 @@ func (c *simCtx) textOfSubject(v ssa.Value) bool {
 
 func (c *simCtx) oracle(cond ssa.Value) (bool, bool) {
 	cond = resolve(cond)
+	if p, ok := cond.(*ssa.Parameter); ok {
+		if v, known := c.boolParams[p]; known {
+			return v, true
+		}
+	}
 	switch x := cond.(type) {
 	case *ssa.Const:
 		if x.Value != nil {
@@ -501,12 +528,12 @@ func (c *simCtx) oracleCmp(b *ssa.BinOp) (bool, bool) {
 	}
 	switch c.sc.Kind {
 	case scRegion:
-		if k, ok := constFloat(b.Y); ok {
+		if k, ok := c.constUnder(b.Y); ok {
 			if lo, hi, ok := c.regionOf(b.X); ok {
 				return decideCmp(b.Op, lo, hi, k)
 			}
 		}
-		if k, ok := constFloat(b.X); ok {
+		if k, ok := c.constUnder(b.X); ok {
 			if lo, hi, ok := c.regionOf(b.Y); ok {
 				return decideCmp(flipOp(b.Op), lo, hi, k)
 			}
@@ -787,7 +814,14 @@ func (c *simCtx) boolResultOf(call *ssa.Call, idx int) (bool, bool) {
 	if !ok {
 		return false, false
 	}
-	sub := &simCtx{e: c.e, f: g, sc: sc2, depth: c.depth + 1}
+	sub := &simCtx{e: c.e, f: g, sc: sc2, depth: c.depth + 1, boolParams: map[*ssa.Parameter]bool{}}
+	for i, a := range call.Call.Args {
+		if i < len(g.Params) {
+			if k, ok := resolve(a).(*ssa.Const); ok && k.Value != nil && (k.Value.String() == "true" || k.Value.String() == "false") {
+				sub.boolParams[g.Params[i]] = k.Value.String() == "true"
+			}
+		}
+	}
 	reach := sub.explore(g.Blocks[0], nil)
 	var val, have bool
 	for _, r := range returnsOf(g) {
